@@ -79,7 +79,7 @@ func isDigits(s string) bool {
 }
 
 // label is the abstract class of a node: its type plus the attributes that select a printing or
-// parsing path (integer vs name lookup, case of a name, escapes in a text, scale of a number).
+// parsing path (integer vs name lookup, case of a name, escapes in and length of a text, scale of a number).
 func label(x excellent.Expression) string {
 	switch t := x.(type) {
 	case *excellent.ContextReference:
@@ -146,6 +146,9 @@ func label(x excellent.Expression) string {
 				l += ":nonascii"
 				break
 			}
+		}
+		if len(s) > 64 {
+			l += ":long"
 		}
 		return l
 	case *excellent.NumberLiteral:
